@@ -237,6 +237,8 @@ def run_onestep(case, res, *, own_prop, extra_props=()):
     res.case(case, nontrivial=n_nodes >= 3)
     for k, v in s.counters.items():
         res.count(k, v)
+    for d in s.state_digests:
+        res.observe("tree_states_after_a_step", d)
     for f in findings:
         if f.prop == own_prop or f.prop in extra_props:
             res.violation(case, f"[{f.tag}] {f.msg}", history=s.log[-3:])
